@@ -77,9 +77,13 @@ pub trait ServerMsg: ReadXml {
         let mut this = None;
         loop {
             match reader.read_resolved_event()? {
+                // a message is one document with one root element: a second one (two replies whose
+                // delimiter got lost, say) falls through to the error arm instead of replacing
+                // what the first one said
                 (ResolveResult::Bound(ns), Event::Start(tag))
                     if ns == Self::TAG_NS
-                        && tag.local_name().as_ref() == Self::TAG_NAME.as_bytes() =>
+                        && tag.local_name().as_ref() == Self::TAG_NAME.as_bytes()
+                        && this.is_none() =>
                 {
                     this = Some(Self::read_xml(&mut reader, &tag)?);
                 }
